@@ -12,6 +12,7 @@ from rasterio.enums import ColorInterp
 from rasterio.transform import Affine
 
 CRS3857 = CRS.from_epsg(3857)
+CRS4326 = CRS.from_epsg(4326)
 
 
 class Grid:
